@@ -1,10 +1,12 @@
 """Native replay of engine-M counterexamples: the decoded schedule is run against the REAL code (crate /verif/replay, built
 from /repo's current tree with feature `verif`) under a controlled scheduler; the oracle is then evaluated on the history
 the real code produced. Only a reproduced symptom is reported as a violation."""
-import os, subprocess, itertools, shutil
+import os, sys, subprocess, itertools, shutil
+sys.path.insert(0, os.path.join(os.path.dirname(os.path.dirname(os.path.abspath(__file__))), "lib"))
+import vpaths
 
-REPLAY_CRATE = "/verif/replay"
-TARGET = "/verif/.build/replay-target"
+REPLAY_CRATE = vpaths.crate("replay")
+TARGET = os.path.join(vpaths.BUILD, "replay-target")
 BIN = os.path.join(TARGET, "debug", "rmreplay")
 _built = {}
 
@@ -13,7 +15,7 @@ def build():
     if _built.get("ok"): return True, ""
     env = dict(os.environ); env["CARGO_NET_OFFLINE"] = "true"; env["CARGO_TARGET_DIR"] = TARGET
     env.pop("RUSTFLAGS", None)
-    try: shutil.copyfile("/repo/Cargo.lock", os.path.join(REPLAY_CRATE, "Cargo.lock"))
+    try: shutil.copyfile(vpaths.REPO + "/Cargo.lock", os.path.join(REPLAY_CRATE, "Cargo.lock"))
     except Exception: pass
     p = subprocess.run(["cargo", "build", "--offline"], cwd=REPLAY_CRATE, env=env, stdout=subprocess.PIPE, stderr=subprocess.STDOUT, text=True)
     if p.returncode != 0: return False, p.stdout[-1500:]
